@@ -741,6 +741,12 @@ func (p TXParamSetupReqPayload) MarshalBinary() ([]byte, error) {
 	if p.MaxEIRP > 15 {
 		return nil, errors.New("lorawan: max value of MaxEIRP is 15")
 	}
+	if p.UplinkDwellTime != DwellTimeNoLimit && p.UplinkDwellTime != DwellTime400ms {
+		return nil, errors.New("lorawan: invalid UplinkDwellTime")
+	}
+	if p.DownlinkDwelltime != DwellTimeNoLimit && p.DownlinkDwelltime != DwellTime400ms {
+		return nil, errors.New("lorawan: invalid DownlinkDwelltime")
+	}
 
 	b := p.MaxEIRP
 
